@@ -107,6 +107,32 @@ pub fn short_l1_image() -> ImageSet {
     from_specs("G9w-short-l1", "shortl1", vec![s])
 }
 
+/// l1_size 1 of 130: the relocated table has an entry count that is no multiple of the entries per block
+pub fn short_l1_odd_image() -> ImageSet {
+    let g = g9_wide(130);
+    let mut s = ImageSpec::new(g.cluster_bits, g.order, g.vsize());
+    let ncl = s.guest_clusters();
+    s.kinds = vec![GKind::Unalloc; ncl];
+    s.kinds[0] = GKind::Data;
+    s.kinds[1] = GKind::Data;
+    s.short_l1 = true;
+    from_specs("G9w-short-l1-odd", "shortl1-odd", vec![s])
+}
+
+/// the header lists 128 L1 entries (two L1 clusters, both in use) although the virtual size needs 192:
+/// the table cannot grow in place, and its two old clusters are the lowest free ones afterwards
+pub fn short_l1_two_image() -> ImageSet {
+    let g = g9_wide(192);
+    let mut s = ImageSpec::new(g.cluster_bits, g.order, g.vsize());
+    let ncl = s.guest_clusters();
+    s.kinds = vec![GKind::Unalloc; ncl];
+    for c in [0usize, 1, 64 * 64, 64 * 64 + 1, 127 * 64] {
+        s.kinds[c] = GKind::Data;
+    }
+    s.short_l1 = true;
+    from_specs("G9w-short-l1-two", "shortl1-two", vec![s])
+}
+
 pub fn find_extra_image(name: &str) -> Option<ImageSet> {
     match name {
         "GF-frag" => Some(frag_image()),
@@ -116,6 +142,8 @@ pub fn find_extra_image(name: &str) -> Option<ImageSet> {
         "GF-filled" => Some(gf_filled_image()),
         "GF-holes" => Some(gf_holes_image()),
         "G9w-short-l1" => Some(short_l1_image()),
+        "G9w-short-l1-two" => Some(short_l1_two_image()),
+        "G9w-short-l1-odd" => Some(short_l1_odd_image()),
         _ => None,
     }
 }
